@@ -198,6 +198,7 @@ public:
     CXX20_REQUIRES(ReturnsFuture<Fn, T>)
     shared_future<T> &operator<<(Fn &&fn) noexcept {
         _ptr->operator <<(std::forward<Fn>(fn));
+        if (_ptr->pending()) _ptr->resolve_tracer.charge(_ptr);
         return *this;
     }
 
